@@ -252,32 +252,35 @@ Lemma chain_of_MCall g f args r acc :
   chain_of g (MCall f args :: r) acc = chain_of g r (XCall (XMember acc f) (List.map g args)).
 Proof. reflexivity. Qed.
 
-Lemma inline_EVal d decls sub v : inline d decls sub (EVal v) = XVal v.
+Lemma inline_EVal d decls active sub v : inline d decls active sub (EVal v) = XVal v.
 Proof. destruct d; reflexivity. Qed.
-Lemma inline_EList d decls sub vs : inline d decls sub (EList vs) = XList vs.
+Lemma inline_EList d decls active sub vs : inline d decls active sub (EList vs) = XList vs.
 Proof. destruct d; reflexivity. Qed.
-Lemma inline_EChain d decls sub x ms :
-  inline d decls sub (EChain x ms) = chain_of (inline d decls sub) ms (head_of sub x).
+Lemma inline_EChain d decls active sub x ms :
+  inline d decls active sub (EChain x ms) = chain_of (inline d decls active sub) ms (head_of sub x).
 Proof. destruct d; reflexivity. Qed.
-Lemma inline_EParen d decls sub a : inline d decls sub (EParen a) = XParen (inline d decls sub a).
+Lemma inline_EParen d decls active sub a : inline d decls active sub (EParen a) = XParen (inline d decls active sub a).
 Proof. destruct d; reflexivity. Qed.
-Lemma inline_EUn d decls sub o a : inline d decls sub (EUn o a) = XUn o (inline d decls sub a).
+Lemma inline_EUn d decls active sub o a : inline d decls active sub (EUn o a) = XUn o (inline d decls active sub a).
 Proof. destruct d; reflexivity. Qed.
-Lemma inline_EBin d decls sub o a b :
-  inline d decls sub (EBin o a b) = XBin o (inline d decls sub a) (inline d decls sub b).
+Lemma inline_EBin d decls active sub o a b :
+  inline d decls active sub (EBin o a b) = XBin o (inline d decls active sub a) (inline d decls active sub b).
 Proof. destruct d; reflexivity. Qed.
-Lemma inline_ECall_O decls sub f args :
-  inline 0 decls sub (ECall f args) = XCall (head_of sub f) (List.map (inline 0 decls sub) args).
+Lemma inline_ECall_O decls active sub f args :
+  inline 0 decls active sub (ECall f args) = XCall (head_of sub f) (List.map (inline 0 decls active sub) args).
 Proof. reflexivity. Qed.
-Lemma inline_ECall_S d decls sub f args :
-  inline (S d) decls sub (ECall f args) =
+Lemma inline_ECall_S d decls active sub f args :
+  inline (S d) decls active sub (ECall f args) =
+  if is_active (call_key f (length args)) active
+  then XCall (head_of sub f) (List.map (inline (S d) decls active sub) args)
+  else
   match find_decl decls f (length args) with
   | Some decl =>
-      XParen (inline d decls
+      XParen (inline d decls (call_key f (length args) :: active)
                 (combine (List.map snd (pd_params decl))
-                         (List.map XParen (List.map (inline (S d) decls sub) args)))
+                         (List.map XParen (List.map (inline (S d) decls active sub) args)))
                 (pd_body decl))
-  | None => XCall (head_of sub f) (List.map (inline (S d) decls sub) args)
+  | None => XCall (head_of sub f) (List.map (inline (S d) decls active sub) args)
   end.
 Proof. reflexivity. Qed.
 
@@ -287,49 +290,51 @@ Definition connective (e : expr) : bool :=
   | _ => false
   end.
 
-Lemma seval_atom d decls env0 env e :
-  connective e = false -> seval d decls env0 env e = eval env (of_expr e).
+Lemma seval_atom d decls active env0 env e :
+  connective e = false -> seval d decls active env0 env e = eval env (of_expr e).
 Proof.
   destruct d; destruct e as [v|vs|x ms|f args|a|[|] a|[| | | | | | | | | | | |] a b];
     cbn [connective]; intros H; try discriminate H; reflexivity.
 Qed.
-Lemma seval_EParen d decls env0 env a :
-  seval d decls env0 env (EParen a) = seval d decls env0 env a.
+Lemma seval_EParen d decls active env0 env a :
+  seval d decls active env0 env (EParen a) = seval d decls active env0 env a.
 Proof. destruct d; reflexivity. Qed.
-Lemma seval_UNot d decls env0 env a :
-  seval d decls env0 env (EUn UNot a) =
-  match seval d decls env0 env a with
+Lemma seval_UNot d decls active env0 env a :
+  seval d decls active env0 env (EUn UNot a) =
+  match seval d decls active env0 env a with
   | Val (VB b) => Val (VB (negb b))
   | Val v => wrong_operand v
   | r => r
   end.
 Proof. destruct d; reflexivity. Qed.
-Lemma seval_BAnd d decls env0 env a b :
-  seval d decls env0 env (EBin BAnd a b) =
-  match seval d decls env0 env a with
+Lemma seval_BAnd d decls active env0 env a b :
+  seval d decls active env0 env (EBin BAnd a b) =
+  match seval d decls active env0 env a with
   | Val (VB false) => Val (VB false)
-  | Val (VB true) => seval d decls env0 env b
+  | Val (VB true) => seval d decls active env0 env b
   | Val v => wrong_operand v
   | r => r
   end.
 Proof. destruct d; reflexivity. Qed.
-Lemma seval_BOr d decls env0 env a b :
-  seval d decls env0 env (EBin BOr a b) =
-  match seval d decls env0 env a with
+Lemma seval_BOr d decls active env0 env a b :
+  seval d decls active env0 env (EBin BOr a b) =
+  match seval d decls active env0 env a with
   | Val (VB true) => Val (VB true)
-  | Val (VB false) => seval d decls env0 env b
+  | Val (VB false) => seval d decls active env0 env b
   | Val v => wrong_operand v
   | r => r
   end.
 Proof. destruct d; reflexivity. Qed.
-Lemma seval_ECall_O decls env0 env f args :
-  seval 0 decls env0 env (ECall f args) = OutOfFragment.
+Lemma seval_ECall_O decls active env0 env f args :
+  seval 0 decls active env0 env (ECall f args) = OutOfFragment.
 Proof. reflexivity. Qed.
-Lemma seval_ECall_S d decls env0 env f args :
-  seval (S d) decls env0 env (ECall f args) =
+Lemma seval_ECall_S d decls active env0 env f args :
+  seval (S d) decls active env0 env (ECall f args) =
+  if is_active (call_key f (length args)) active then OutOfFragment else
   match find_decl decls f (length args), all_some (List.map (arg_entity env) args) with
   | Some decl, Some ents =>
-      seval d decls env0 (combine (List.map snd (pd_params decl)) ents ++ env0) (pd_body decl)
+      seval d decls (call_key f (length args) :: active) env0
+            (combine (List.map snd (pd_params decl)) ents ++ env0) (pd_body decl)
   | _, _ => OutOfFragment
   end.
 Proof. reflexivity. Qed.
@@ -449,9 +454,9 @@ Qed.
 
 (* atoms: the substituted expression over the FROM environment has the value of the plain
    expression in the specification environment *)
-Lemma inline_atom d decls env0 sub env e :
+Lemma inline_atom d decls active env0 sub env e :
   call_free e = true -> R env0 sub env ->
-  eval env0 (inline d decls sub e) = eval env (of_expr e).
+  eval env0 (inline d decls active sub e) = eval env (of_expr e).
 Proof.
   intros Hcf HR. unfold of_expr.
   induction e as [v|vs|x ms|f args|a IHa|o a IHa|o a IHa b IHb]; cbn [call_free] in Hcf.
@@ -466,10 +471,10 @@ Proof.
 Qed.
 
 (* the arguments of a call that denote entities *)
-Lemma args_entities d decls env0 sub env : R env0 sub env -> forall args ents,
+Lemma args_entities d decls active env0 sub env : R env0 sub env -> forall args ents,
   all_some (List.map (arg_entity env) args) = Some ents ->
   Forall2 (fun a ent => eval env0 a = Val (VEnv (fst ent) (snd ent)))
-          (List.map XParen (List.map (inline d decls sub) args)) ents.
+          (List.map XParen (List.map (inline d decls active sub) args)) ents.
 Proof.
   intros HR. induction args as [|a args IH]; intros ents H; cbn [map all_some] in H |- *.
   - injection H as <-. constructor.
@@ -497,21 +502,23 @@ Proof. unfold find_decl. intros H. now apply find_some in H as [H _]. Qed.
 
 Lemma inline_seval_step d decls env0
   (Hdecls : forall decl, In decl decls -> skeleton (pd_body decl) = true)
-  (IHd : forall d', d = S d' -> forall e sub env,
+  (IHd : forall d', d = S d' -> forall active e sub env,
          skeleton e = true -> R env0 sub env ->
-         seval d' decls env0 env e <> OutOfFragment ->
-         eval env0 (inline d' decls sub e) = seval d' decls env0 env e) :
-  forall e sub env,
+         seval d' decls active env0 env e <> OutOfFragment ->
+         eval env0 (inline d' decls active sub e) = seval d' decls active env0 env e) :
+  forall active e sub env,
     skeleton e = true -> R env0 sub env ->
-    seval d decls env0 env e <> OutOfFragment ->
-    eval env0 (inline d decls sub e) = seval d decls env0 env e.
+    seval d decls active env0 env e <> OutOfFragment ->
+    eval env0 (inline d decls active sub e) = seval d decls active env0 env e.
 Proof.
+  intros active.
   induction e as [v|vs|x ms|f args|a IHa|o a IHa|o a IHa b IHb]; intros sub env Hsk HR Hr.
   - rewrite seval_atom by reflexivity. now apply inline_atom.
   - rewrite seval_atom by reflexivity. now apply inline_atom.
   - rewrite seval_atom by reflexivity. now apply inline_atom.
   - destruct d as [|d']; [rewrite seval_ECall_O in Hr; now destruct Hr|].
     rewrite seval_ECall_S in Hr |- *. rewrite inline_ECall_S.
+    destruct (is_active (call_key f (length args)) active); [now destruct Hr|].
     destruct (find_decl decls f (length args)) as [decl|] eqn:Ef; [|now destruct Hr].
     destruct (all_some (map (arg_entity env) args)) as [ents|] eqn:Ea; [|now destruct Hr].
     rewrite eval_XParen. apply (IHd d' eq_refl).
@@ -521,41 +528,41 @@ Proof.
   - rewrite seval_EParen in Hr |- *. rewrite inline_EParen, eval_XParen. now apply IHa.
   - destruct o.
     + cbn [skeleton] in Hsk. rewrite seval_UNot in Hr |- *. rewrite inline_EUn. cbn [eval].
-      assert (Ha : seval d decls env0 env a <> OutOfFragment).
+      assert (Ha : seval d decls active env0 env a <> OutOfFragment).
       { intros E. rewrite E in Hr. now apply Hr. }
       now rewrite (IHa sub env Hsk HR Ha).
     + rewrite seval_atom by reflexivity. now apply inline_atom.
   - destruct o; try (rewrite seval_atom by reflexivity; now apply inline_atom).
     + cbn [skeleton] in Hsk. apply andb_prop in Hsk as [Ha Hb].
       rewrite seval_BOr in Hr |- *. rewrite inline_EBin. cbn [eval].
-      assert (Hra : seval d decls env0 env a <> OutOfFragment).
+      assert (Hra : seval d decls active env0 env a <> OutOfFragment).
       { intros E. rewrite E in Hr. now apply Hr. }
       rewrite (IHa sub env Ha HR Hra).
-      destruct (seval d decls env0 env a) as [[s|z|[|]| |l|p q n|p n|tag]| | |]; try reflexivity.
+      destruct (seval d decls active env0 env a) as [[s|z|[|]| |l|p q n|p n|tag]| | |]; try reflexivity.
       now apply IHb.
     + cbn [skeleton] in Hsk. apply andb_prop in Hsk as [Ha Hb].
       rewrite seval_BAnd in Hr |- *. rewrite inline_EBin. cbn [eval].
-      assert (Hra : seval d decls env0 env a <> OutOfFragment).
+      assert (Hra : seval d decls active env0 env a <> OutOfFragment).
       { intros E. rewrite E in Hr. now apply Hr. }
       rewrite (IHa sub env Ha HR Hra).
-      destruct (seval d decls env0 env a) as [[s|z|[|]| |l|p q n|p n|tag]| | |]; try reflexivity.
+      destruct (seval d decls active env0 env a) as [[s|z|[|]| |l|p q n|p n|tag]| | |]; try reflexivity.
       now apply IHb.
 Qed.
 
-Theorem inline_seval : forall d decls env0,
+Theorem inline_seval : forall d decls active env0,
   (forall decl, In decl decls -> skeleton (pd_body decl) = true) ->
   forall e sub env, skeleton e = true -> R env0 sub env ->
-  forall r, seval d decls env0 env e = r -> r <> OutOfFragment ->
-  eval env0 (inline d decls sub e) = r.
+  forall r, seval d decls active env0 env e = r -> r <> OutOfFragment ->
+  eval env0 (inline d decls active sub e) = r.
 Proof.
-  intros d decls env0 Hdecls.
-  assert (H : forall e sub env, skeleton e = true -> R env0 sub env ->
-              seval d decls env0 env e <> OutOfFragment ->
-              eval env0 (inline d decls sub e) = seval d decls env0 env e).
+  intros d decls active env0 Hdecls. revert active.
+  assert (H : forall active e sub env, skeleton e = true -> R env0 sub env ->
+              seval d decls active env0 env e <> OutOfFragment ->
+              eval env0 (inline d decls active sub e) = seval d decls active env0 env e).
   { induction d as [|d IH]; apply inline_seval_step; try exact Hdecls.
     - intros d' E. discriminate E.
     - intros d' E. injection E as <-. exact IH. }
-  intros e sub env Hsk HR r <- Hr. now apply H.
+  intros active e sub env Hsk HR r <- Hr. now apply H.
 Qed.
 Print Assumptions inline_seval.
 
@@ -566,7 +573,7 @@ Definition wf_query (q : query) : bool :=
 
 (* the specification value of a condition on a tuple *)
 Definition sv (q : query) (t : list node) (e : expr) : res :=
-  seval max_depth (q_preds q) (tuple_env q t) (tuple_env q t) e.
+  seval (fuel_of (q_preds q)) (q_preds q) [] (tuple_env q t) (tuple_env q t) e.
 
 (* the expanded condition passes the static checker on this tuple (no compile error, in fragment) *)
 Definition static_ok (q : query) (t : list node) : Prop :=
@@ -574,11 +581,11 @@ Definition static_ok (q : query) (t : list node) : Prop :=
 
 Lemma condition_eval_sv q t e :
   wf_query q = true -> q_where q = Some e -> sv q t e <> OutOfFragment ->
-  eval (tuple_env q t) (inline max_depth (q_preds q) [] e) = sv q t e.
+  eval (tuple_env q t) (inline (fuel_of (q_preds q)) (q_preds q) [] [] e) = sv q t e.
 Proof.
   unfold wf_query. intros Hwf Hw Hr. rewrite Hw in Hwf. apply andb_prop in Hwf as [Hsk Hd].
   rewrite forallb_forall in Hd.
-  apply (inline_seval max_depth (q_preds q) (tuple_env q t) Hd e [] (tuple_env q t) Hsk (R_nil _)
+  apply (inline_seval (fuel_of (q_preds q)) (q_preds q) [] (tuple_env q t) Hd e [] (tuple_env q t) Hsk (R_nil _)
            (sv q t e) eq_refl Hr).
 Qed.
 
@@ -638,7 +645,7 @@ Lemma sv_and q t A B :
   sv q t (EBin BAnd A B) = Val (VB true) <-> sv q t A = Val (VB true) /\ sv q t B = Val (VB true).
 Proof.
   unfold sv. rewrite seval_BAnd.
-  destruct (seval max_depth (q_preds q) (tuple_env q t) (tuple_env q t) A)
+  destruct (seval (fuel_of (q_preds q)) (q_preds q) [] (tuple_env q t) (tuple_env q t) A)
     as [[s|z|[|]| |l|p r n|p n|tag]| | |]; cbn [wrong_operand plain];
     split; try (intros [H1 H2]); try intros H; try discriminate; auto.
 Qed.
@@ -648,7 +655,7 @@ Lemma sv_or q t A B :
   sv q t A = Val (VB true) \/ (sv q t A = Val (VB false) /\ sv q t B = Val (VB true)).
 Proof.
   unfold sv. rewrite seval_BOr.
-  destruct (seval max_depth (q_preds q) (tuple_env q t) (tuple_env q t) A)
+  destruct (seval (fuel_of (q_preds q)) (q_preds q) [] (tuple_env q t) (tuple_env q t) A)
     as [[s|z|[|]| |l|p r n|p n|tag]| | |]; cbn [wrong_operand plain];
     split; try (intros [H|[H1 H2]]); try intros H; try discriminate; auto.
 Qed.
@@ -656,7 +663,7 @@ Qed.
 Lemma sv_not q t A : sv q t (EUn UNot A) = Val (VB true) <-> sv q t A = Val (VB false).
 Proof.
   unfold sv. rewrite seval_UNot.
-  destruct (seval max_depth (q_preds q) (tuple_env q t) (tuple_env q t) A)
+  destruct (seval (fuel_of (q_preds q)) (q_preds q) [] (tuple_env q t) (tuple_env q t) A)
     as [[s|z|[|]| |l|p r n|p n|tag]| | |]; cbn [wrong_operand plain negb];
     split; intros H; try discriminate; auto.
 Qed.
@@ -753,7 +760,7 @@ Print Assumptions spec_paren.
 
 (* ---------- De Morgan, double negation, commutativity ---------- *)
 Ltac sv_cases q t A :=
-  destruct (seval max_depth (q_preds q) (tuple_env q t) (tuple_env q t) A)
+  destruct (seval (fuel_of (q_preds q)) (q_preds q) [] (tuple_env q t) (tuple_env q t) A)
     as [[?|?|[|]| |?|? ? ?|? ?|?]| | |]; cbn [wrong_operand plain negb]; try reflexivity.
 
 (* pointwise, and unconditional: both sides evaluate A, then B, and fail alike *)
@@ -911,50 +918,55 @@ Definition emit_chain (g : expr -> list bytes) : list emov -> list bytes :=
     | MCall f args :: r => "." :: f :: "(" :: sep_pieces "," (List.map g args) ++ ")" :: chain r
     end.
 
-Lemma emit_EVal d decls sub v : emit d decls sub (EVal v) = [value_text v].
+Lemma emit_EVal d decls active sub v : emit d decls active sub (EVal v) = [value_text v].
 Proof. destruct d; reflexivity. Qed.
-Lemma emit_EList d decls sub vs :
-  emit d decls sub (EList vs) = "[" :: sep_pieces "," (List.map (fun v => [value_text v]) vs) ++ ["]"].
+Lemma emit_EList d decls active sub vs :
+  emit d decls active sub (EList vs) = "[" :: sep_pieces "," (List.map (fun v => [value_text v]) vs) ++ ["]"].
 Proof. destruct d; reflexivity. Qed.
-Lemma emit_EChain d decls sub x ms :
-  emit d decls sub (EChain x ms) = head_text sub x :: emit_chain (emit d decls sub) ms.
+Lemma emit_EChain d decls active sub x ms :
+  emit d decls active sub (EChain x ms) = head_text sub x :: emit_chain (emit d decls active sub) ms.
 Proof. destruct d; reflexivity. Qed.
-Lemma emit_EParen d decls sub a : emit d decls sub (EParen a) = "(" :: emit d decls sub a ++ [")"].
+Lemma emit_EParen d decls active sub a : emit d decls active sub (EParen a) = "(" :: emit d decls active sub a ++ [")"].
 Proof. destruct d; reflexivity. Qed.
-Lemma emit_EUn d decls sub o a : emit d decls sub (EUn o a) = unop_text o :: emit d decls sub a.
+Lemma emit_EUn d decls active sub o a : emit d decls active sub (EUn o a) = unop_text o :: emit d decls active sub a.
 Proof. destruct d; reflexivity. Qed.
-Lemma emit_EBin d decls sub o a b :
-  emit d decls sub (EBin o a b) = emit d decls sub a ++ binop_text o :: emit d decls sub b.
+Lemma emit_EBin d decls active sub o a b :
+  emit d decls active sub (EBin o a b) = emit d decls active sub a ++ binop_text o :: emit d decls active sub b.
 Proof. destruct d; reflexivity. Qed.
-Lemma emit_ECall_O decls sub f args :
-  emit 0 decls sub (ECall f args)
-  = head_text sub f :: "(" :: sep_pieces "," (List.map (emit 0 decls sub) args) ++ [")"].
+Lemma emit_ECall_O decls active sub f args :
+  emit 0 decls active sub (ECall f args)
+  = head_text sub f :: "(" :: sep_pieces "," (List.map (emit 0 decls active sub) args) ++ [")"].
 Proof. reflexivity. Qed.
-Lemma emit_ECall_S d decls sub f args :
-  emit (S d) decls sub (ECall f args) =
+Lemma emit_ECall_S d decls active sub f args :
+  emit (S d) decls active sub (ECall f args) =
+  if is_active (call_key f (length args)) active
+  then head_text sub f :: "(" :: sep_pieces "," (List.map (emit (S d) decls active sub) args) ++ [")"]
+  else
   match find_decl decls f (length args) with
   | Some decl =>
-      "(" :: emit d decls
+      "(" :: emit d decls (call_key f (length args) :: active)
                (combine (List.map snd (pd_params decl))
-                        (List.map (fun a => "( " ++ join " " (emit (S d) decls sub a) ++ " )") args))
+                        (List.map (fun a => "( " ++ join " " (emit (S d) decls active sub a) ++ " )") args))
                (pd_body decl) ++ [")"]
-  | None => head_text sub f :: "(" :: sep_pieces "," (List.map (emit (S d) decls sub) args) ++ [")"]
+  | None => head_text sub f :: "(" :: sep_pieces "," (List.map (emit (S d) decls active sub) args) ++ [")"]
   end.
 Proof.
-  change (emit (S d) decls sub (ECall f args)) with
+  change (emit (S d) decls active sub (ECall f args)) with
     (match
+        (if is_active (call_key f (length args)) active then None else
         match find_decl decls f (length args) with
         | Some decl =>
-            Some ("(" :: emit d decls
+            Some ("(" :: emit d decls (call_key f (length args) :: active)
                     (combine (List.map snd (pd_params decl))
-                       (List.map (fun a => "( " ++ join " " (emit (S d) decls sub a) ++ " )") args))
+                       (List.map (fun a => "( " ++ join " " (emit (S d) decls active sub a) ++ " )") args))
                     (pd_body decl) ++ [")"])
         | None => None
-        end
+        end)
       with
       | Some p => p
-      | None => head_text sub f :: "(" :: sep_pieces "," (List.map (emit (S d) decls sub) args) ++ [")"]
+      | None => head_text sub f :: "(" :: sep_pieces "," (List.map (emit (S d) decls active sub) args) ++ [")"]
       end).
+  destruct (is_active (call_key f (length args)) active); [reflexivity|].
   destruct (find_decl decls f (length args)); reflexivity.
 Qed.
 
@@ -993,39 +1005,39 @@ Qed.
 
 (* ---------- the step ---------- *)
 Section EmitInline.
-  Variables (d : nat) (decls : list pred_decl).
+  Variables (d : nat) (decls : list pred_decl) (active : list bytes).
   Let P (e : expr) : Prop :=
-    forall sub, peq (emit d decls (tsub_of sub) e) (xprint (inline d decls sub e)).
+    forall sub, peq (emit d decls active (tsub_of sub) e) (xprint (inline d decls active sub e)).
 
   Lemma args_peq sub args : Forall P args ->
-    peq (sep_pieces "," (List.map (emit d decls (tsub_of sub)) args))
-        (sep_pieces "," (List.map xprint (List.map (inline d decls sub) args))).
+    peq (sep_pieces "," (List.map (emit d decls active (tsub_of sub)) args))
+        (sep_pieces "," (List.map xprint (List.map (inline d decls active sub) args))).
   Proof.
     intros H. apply sep_peq. rewrite map_map.
-    apply Forall_Forall2_map with (f := emit d decls (tsub_of sub))
-                                  (h := fun a => xprint (inline d decls sub a)).
+    apply Forall_Forall2_map with (f := emit d decls active (tsub_of sub))
+                                  (h := fun a => xprint (inline d decls active sub a)).
     revert H. apply Forall_impl. intros a Ha. apply Ha.
   Qed.
 
   Lemma chain_peq sub : forall ms, Forall (Pmov P) ms -> forall acc pre,
     peq pre (xprint acc) ->
-    peq (pre ++ emit_chain (emit d decls (tsub_of sub)) ms)
-        (xprint (chain_of (inline d decls sub) ms acc)).
+    peq (pre ++ emit_chain (emit d decls active (tsub_of sub)) ms)
+        (xprint (chain_of (inline d decls active sub) ms acc)).
   Proof.
     induction ms as [|[f|f args] r IH]; intros HF acc pre Hpre.
     - cbn [emit_chain]. rewrite app_nil_r. exact Hpre.
     - inversion HF as [|? ? _ Hr]; subst. rewrite chain_of_MVar.
-      change (emit_chain (emit d decls (tsub_of sub)) (MVar f :: r))
-        with (["."; f] ++ emit_chain (emit d decls (tsub_of sub)) r).
+      change (emit_chain (emit d decls active (tsub_of sub)) (MVar f :: r))
+        with (["."; f] ++ emit_chain (emit d decls active (tsub_of sub)) r).
       rewrite app_assoc. apply (IH Hr). cbn [xprint]. apply peq_app; [exact Hpre|apply peq_refl].
     - inversion HF as [|? ? Hargs Hr]; subst. cbn [Pmov] in Hargs. rewrite chain_of_MCall.
-      change (emit_chain (emit d decls (tsub_of sub)) (MCall f args :: r))
-        with ("." :: f :: "(" :: sep_pieces "," (List.map (emit d decls (tsub_of sub)) args)
-                ++ ")" :: emit_chain (emit d decls (tsub_of sub)) r).
-      replace (pre ++ "." :: f :: "(" :: sep_pieces "," (List.map (emit d decls (tsub_of sub)) args)
-                ++ ")" :: emit_chain (emit d decls (tsub_of sub)) r)
-        with ((pre ++ ["."; f] ++ "(" :: sep_pieces "," (List.map (emit d decls (tsub_of sub)) args)
-                ++ [")"]) ++ emit_chain (emit d decls (tsub_of sub)) r)
+      change (emit_chain (emit d decls active (tsub_of sub)) (MCall f args :: r))
+        with ("." :: f :: "(" :: sep_pieces "," (List.map (emit d decls active (tsub_of sub)) args)
+                ++ ")" :: emit_chain (emit d decls active (tsub_of sub)) r).
+      replace (pre ++ "." :: f :: "(" :: sep_pieces "," (List.map (emit d decls active (tsub_of sub)) args)
+                ++ ")" :: emit_chain (emit d decls active (tsub_of sub)) r)
+        with ((pre ++ ["."; f] ++ "(" :: sep_pieces "," (List.map (emit d decls active (tsub_of sub)) args)
+                ++ [")"]) ++ emit_chain (emit d decls active (tsub_of sub)) r)
         by (rewrite <- !app_assoc; cbn [app]; rewrite <- !app_assoc; reflexivity).
       apply (IH Hr). cbn [xprint]. rewrite <- app_assoc.
       apply peq_app; [exact Hpre|]. apply peq_app; [apply peq_refl|].
@@ -1034,30 +1046,32 @@ Section EmitInline.
 End EmitInline.
 
 Lemma emit_inline_step d decls
-  (IHd : forall d', d = S d' -> forall e sub,
-         peq (emit d' decls (tsub_of sub) e) (xprint (inline d' decls sub e))) :
-  forall e sub, peq (emit d decls (tsub_of sub) e) (xprint (inline d decls sub e)).
+  (IHd : forall d', d = S d' -> forall active e sub,
+         peq (emit d' decls active (tsub_of sub) e) (xprint (inline d' decls active sub e))) :
+  forall active e sub, peq (emit d decls active (tsub_of sub) e) (xprint (inline d decls active sub e)).
 Proof.
+  intros active.
   induction e as [v|vs|x ms Hms|f args Hargs|a IHa|o a IHa|o a b IHa IHb] using expr_ind'; intros sub.
   - rewrite emit_EVal, inline_EVal. apply peq_refl.
   - rewrite emit_EList, inline_EList. apply peq_refl.
   - rewrite emit_EChain, inline_EChain.
-    change (head_text (tsub_of sub) x :: emit_chain (emit d decls (tsub_of sub)) ms)
-      with ([head_text (tsub_of sub) x] ++ emit_chain (emit d decls (tsub_of sub)) ms).
+    change (head_text (tsub_of sub) x :: emit_chain (emit d decls active (tsub_of sub)) ms)
+      with ([head_text (tsub_of sub) x] ++ emit_chain (emit d decls active (tsub_of sub)) ms).
     apply chain_peq; [exact Hms|apply head_peq].
   - assert (Hnone : peq (head_text (tsub_of sub) f :: "(" ::
-                           sep_pieces "," (List.map (emit d decls (tsub_of sub)) args) ++ [")"])
-                        (xprint (XCall (head_of sub f) (List.map (inline d decls sub) args)))).
+                           sep_pieces "," (List.map (emit d decls active (tsub_of sub)) args) ++ [")"])
+                        (xprint (XCall (head_of sub f) (List.map (inline d decls active sub) args)))).
     { cbn [xprint]. apply (peq_app [_] _ _ _ (head_peq sub f)). apply peq_cons.
       apply peq_app; [|apply peq_refl]. now apply args_peq. }
     destruct d as [|d']; [rewrite emit_ECall_O, inline_ECall_O; exact Hnone|].
     rewrite emit_ECall_S, inline_ECall_S.
+    destruct (is_active (call_key f (length args)) active); [exact Hnone|].
     destruct (find_decl decls f (length args)) as [decl|]; [|exact Hnone].
     cbn [xprint]. apply peq_cons. apply peq_app; [|apply peq_refl].
     replace (combine (List.map snd (pd_params decl))
-               (List.map (fun a => "( " ++ join " " (emit (S d') decls (tsub_of sub) a) ++ " )") args))
+               (List.map (fun a => "( " ++ join " " (emit (S d') decls active (tsub_of sub) a) ++ " )") args))
       with (tsub_of (combine (List.map snd (pd_params decl))
-                       (List.map XParen (List.map (inline (S d') decls sub) args)))).
+                       (List.map XParen (List.map (inline (S d') decls active sub) args)))).
     { apply (IHd d' eq_refl). }
     rewrite tsub_of_combine. f_equal. rewrite !map_map.
     clear Hnone. induction Hargs as [|a args Ha Hargs IH]; cbn [map]; [reflexivity|].
@@ -1069,8 +1083,8 @@ Proof.
   - rewrite emit_EBin, inline_EBin. cbn [xprint]. apply peq_app; [apply IHa|]. apply peq_cons, IHb.
 Qed.
 
-Theorem emit_inline_peq : forall d decls e sub,
-  peq (emit d decls (tsub_of sub) e) (xprint (inline d decls sub e)).
+Theorem emit_inline_peq : forall d decls active e sub,
+  peq (emit d decls active (tsub_of sub) e) (xprint (inline d decls active sub e)).
 Proof.
   induction d as [|d IH]; intros decls; apply emit_inline_step.
   - intros d' E. discriminate E.
@@ -1078,10 +1092,10 @@ Proof.
 Qed.
 
 (* the text ExpandedCondition builds is the printed form of the AST-level expansion *)
-Theorem emit_inline : forall d decls e tsub sub,
+Theorem emit_inline : forall d decls active e tsub sub,
   tsub_of sub = tsub ->
-  join " " (emit d decls tsub e) = join " " (xprint (inline d decls sub e)).
-Proof. intros d decls e tsub sub <-. apply emit_inline_peq. Qed.
+  join " " (emit d decls active tsub e) = join " " (xprint (inline d decls active sub e)).
+Proof. intros d decls active e tsub sub <-. apply emit_inline_peq. Qed.
 Print Assumptions emit_inline.
 
 Corollary expanded_condition_inline q :
